@@ -49,7 +49,7 @@ func namedCheck(kind string, n uint64, before, after sigcli.VerifTrackerState) s
 // epoch on the strength of an ack produced in the old one (fixed in the relay
 // by dropping pending acks/clears on every epoch change).  Returns a non-empty
 // description if the violation is observed.
-func staleAckScenario(ids []*identity, restartB bool) (string, []string) {
+func staleAckBackPressureScenario(ids []*identity, restartB bool) (string, []string) {
 	var steps []string
 	le := quietLogger()
 	ctx, cancel := context.WithCancel(context.Background())
@@ -101,6 +101,78 @@ func staleAckScenario(ids []*identity, restartB bool) (string, []string) {
 	rB2 := startRecv(ctx, refB, nil)
 	if !rB2.wait(3*time.Second) || !sA.wait(3*time.Second) {
 		return "", append(steps, "note: send did not complete after B received in the new epoch")
+	}
+	return "", steps
+}
+
+// staleAckScenario: an ack of the OLD session epoch is still in flight on B's
+// uplink when A has restarted (message sequence numbers restart at 1), the
+// session was re-opened and the new message (seqno 1 again) has been delivered
+// to B's client but not yet to B's application.  The late ack must not make
+// A.Send(m_new) succeed.
+func staleAckScenario(ids []*identity) (string, []string) {
+	var steps []string
+	le := quietLogger()
+	ctx, cancel := context.WithCancel(context.Background())
+	defer cancel()
+	net := newRelayNet(le)
+	A, B := ids[0], ids[1]
+	ncA, ncB := net.client(A.pid), net.client(B.pid)
+	defer ncA.killAll()
+	defer ncB.killAll()
+	ctxA, cancelA := context.WithCancel(ctx)
+	cA, cB := newClient(le, ncA, A), newClient(le, ncB, B)
+	cA.SetContext(ctxA)
+	cB.SetContext(ctx)
+	refA, refB := cA.AddPeerRef(B.str), cB.AddPeerRef(A.str)
+	if !waitUntil(5*time.Second, func() bool { return refA.VerifState().Open != nil && refB.VerifState().Open != nil }) {
+		return "", append(steps, "setup: sessions did not open")
+	}
+	e0 := *refB.VerifState().Open
+	steps = append(steps, fmt.Sprintf("A and B attached (epoch %d)", e0))
+	startSend(ctx, refA, []byte("m_old"), nil)
+	if !waitUntil(3*time.Second, func() bool { return refB.VerifState().Recv != nil }) {
+		return "", append(steps, "setup: m_old did not reach B's client")
+	}
+	// B's uplink is slow from now on: the ack stays in flight
+	connB := ncB.last()
+	connB.setHoldReq(true)
+	rOld := startRecv(ctx, refB, nil)
+	if !rOld.wait(3*time.Second) || !waitUntil(3*time.Second, func() bool { return connB.heldCount() > 0 }) {
+		return "", append(steps, "setup: B did not receive m_old / did not write the ack")
+	}
+	steps = append(steps, fmt.Sprintf("A.Send(m_old) seqno 1; B.Recv returned it; B's ack(1, epoch %d) is in flight on B's uplink", e0))
+	// A gives up and restarts with a fresh Client: message sequence numbers restart
+	cancelA()
+	cA.ClearContext()
+	cA2 := newClient(le, ncA, A)
+	cA2.SetContext(ctx)
+	refA2 := cA2.AddPeerRef(B.str)
+	if !waitUntil(5*time.Second, func() bool {
+		st := refB.VerifState()
+		return st.Open != nil && *st.Open != e0 && refA2.VerifState().Open != nil && *refA2.VerifState().Open == *st.Open
+	}) {
+		return "", append(steps, "setup: the restarted A did not attach")
+	}
+	steps = append(steps, fmt.Sprintf("A restarted with a fresh Client; session re-opened (epoch %d)", *refB.VerifState().Open))
+	sNew := startSend(ctx, refA2, []byte("m_new"), nil)
+	if !waitUntil(3*time.Second, func() bool {
+		st := refB.VerifState()
+		return st.Recv != nil && string(st.Recv.GetSignedMsg().GetData()) == "m_new"
+	}) {
+		return "", append(steps, "setup: m_new did not reach B's client")
+	}
+	steps = append(steps, "A.Send(m_new) (seqno 1 again) delivered to B's client; B's application does not call Recv")
+	connB.setHoldReq(false)
+	steps = append(steps, "the delayed ack of the old epoch arrives at the relay")
+	if sNew.wait(200 * time.Millisecond) {
+		if _, ok, _ := sNew.result(); ok {
+			return "A.Send(m_new) reported success although B's application has not been handed m_new (only the late ack of m_old arrived)", steps
+		}
+	}
+	rNew := startRecv(ctx, refB, nil)
+	if !rNew.wait(3*time.Second) || !sNew.wait(3*time.Second) {
+		return "", append(steps, "note: Send(m_new) / Recv did not complete after B's application called Recv")
 	}
 	return "", steps
 }
@@ -269,11 +341,22 @@ func c21(c *hx.Ctx) {
 	// (c) regression of the stale-ack history
 	ids := newIdentities(c.Rng, 3)
 	for i := 0; i < 2; i++ {
-		what, steps := staleAckScenario(ids, i == 1)
+		what, steps := staleAckBackPressureScenario(ids, i == 1)
 		c.Eval()
 		c.Class("net:stale-ack-regression")
 		if what != "" {
 			c.Failf("c21-stale-ack-across-reopen", map[string]any{"history": steps}, "%s", what)
+		}
+	}
+	for i := 0; i < 2; i++ {
+		what, steps := staleAckScenario(ids)
+		c.Eval()
+		c.Class("net:late-ack-of-old-epoch")
+		if what != "" {
+			c.Failf("c21-send-ok-before-partner-recv", map[string]any{"history": steps}, "%s", what)
+		} else if n := len(steps); n > 0 && (len(steps[n-1]) > 5 && (steps[n-1][:5] == "setup" || steps[n-1][:4] == "note")) {
+			c.Class("net:late-ack-scenario-incomplete")
+			c.Extra["late-ack-scenario"] = steps
 		}
 	}
 	for i := 0; i < 2; i++ {
